@@ -401,7 +401,10 @@ def validate_evidence(ev):
     if lvl == "proof":
         if not (isinstance(cov.get("obligations"), int) and cov["obligations"] >= 1):
             problems.append("obligations")
-        if not (isinstance(cov.get("discharged"), int) and cov["discharged"] >= 1):
+        # discharged may legitimately be 0 when the Lean obligations no longer check and the
+        # run reports that as a violation (proof_gate): the evidence is then still well-formed
+        if not (isinstance(cov.get("discharged"), int) and
+                (cov["discharged"] >= 1 or ev.get("violations", 0) >= 1)):
             problems.append("discharged")
         if not str(cov.get("checker_cmd", "")).strip():
             problems.append("checker_cmd")
